@@ -19,6 +19,8 @@ var basicTypes = []reflect.Type{
 	reflect.TypeFor[float32](), reflect.TypeFor[float64](), reflect.TypeFor[string](), reflect.TypeFor[any](),
 	reflect.TypeFor[typecorpus.NamedInt](), reflect.TypeFor[typecorpus.NamedStr](), reflect.TypeFor[typecorpus.Key](),
 	reflect.TypeFor[struct{}](), reflect.TypeFor[typecorpus.Empty](),
+	// defined types of the standard library that are plain numbers in JSON (no marshaler methods)
+	reflect.TypeFor[time.Duration](), reflect.TypeFor[time.Month](), reflect.TypeFor[time.Weekday](),
 }
 
 // TypeSig is a structural signature of a type (names erased) used for non-triviality keys.
